@@ -282,6 +282,14 @@ public:
       if (orc.isolation) CheckIsolation(c);
    }
 
+   // A loud write repairs every mirror only if every subscriber of the path is told about it.  A subscriber whose FILTER rejects the new payload hears nothing
+   // when the server sees the node as new (or as not matching before either), so a stale entry left behind by an earlier quiet removal/write stays: the path
+   // then remains "don't care" (found by seed 2024: setdata a=2 ; sub ? i>1 ; quiet rmdata * ; setdata a=1  -> the subscriber legitimately keeps a=2).
+   bool FilteredSubscriptionCovers(const std::string & p) const
+   {
+      for (auto & cp : conns) if ((cp)&&(cp->up)) {for (auto & sp : cp->clientSubs) if ((!sp.second.filt.IsNone())&&(match::PathMatch(sp.first, p))) return true; for (auto & sp : cp->serverSubs) if ((!sp.second.filt.IsNone())&&(match::PathMatch(sp.first, p))) return true;}
+      return false;
+   }
    // quiet writes / removals (documented relaxation of C04): the affected paths become "don't care" for mirrors; a loud write clears the mark
    void NoteQuietEffects(Conn * c, const Message & m)
    {
@@ -298,7 +306,7 @@ public:
             {
                p += "/" + cl[i];
                if (quiet) {dontCare.insert(p); st.inc("p.quiet_write");}
-               else if ((i+1 == cl.size())&&(!flags.IsBitSet(SETDATANODE_FLAG_DONTCREATENODE))&&(!flags.IsBitSet(SETDATANODE_FLAG_DONTOVERWRITEDATA))) dontCare.erase(p);     // the leaf is (re)written loudly and unconditionally: subscribers get its current value
+               else if ((i+1 == cl.size())&&(!flags.IsBitSet(SETDATANODE_FLAG_DONTCREATENODE))&&(!flags.IsBitSet(SETDATANODE_FLAG_DONTOVERWRITEDATA))&&(!FilteredSubscriptionCovers(p))) dontCare.erase(p);     // the leaf is (re)written loudly and unconditionally: subscribers get its current value
                // (an intermediate node that a loud command creates is announced; one that exists already is untouched: its mark stays)
             }
          }
